@@ -20,7 +20,7 @@ Grammar(e) == CASE e.lang = "typescript" -> TS!Accepts(e.tokens)
                 [] e.lang = "python" -> e.cpython_parses /\ e.cpython_loads
 \* closed strings / comments (lexer verdict), escape sequences of string literals (e.strs: the bodies that contain a backslash),
 \* closed delimiters, declaration grammar
-Accepts(e) == e.lex_ok /\ SL!AllOk(e.lang, e.strs) /\ TS!Balanced(e.tokens) /\ (e.lang \in {"typescript", "kotlin", "swift", "scala"} => TS!AdjOk(e.tokens)) /\ Grammar(e)
+Accepts(e) == e.lex_ok /\ SL!AllOk(e.lang, e.strs) /\ TS!Balanced(e.tokens) /\ (e.lang \in {"typescript", "kotlin", "swift", "scala"} => (TS!AdjOk(e.tokens) /\ TS!OperandOk(e.tokens))) /\ Grammar(e)
 Init == i = 1 /\ bad = <<>>
 Next == /\ i <= Len(Rec)
         /\ bad' = IF Accepts(Rec[i]) THEN bad ELSE Append(bad, i)
